@@ -26,6 +26,18 @@ def key_id(k):
 
 
 _KIT = None
+_HAS_UPD = []
+
+
+def has_upd():
+    """plain value updates next to structural keys are generated once Model/Struct.v has OpUpd"""
+    if not _HAS_UPD:
+        import os
+        try:
+            _HAS_UPD.append('OpUpd' in open(os.path.join(common.COQ, 'Model', 'Struct.v')).read())
+        except OSError:
+            _HAS_UPD.append(False)
+    return _HAS_UPD[0]
 
 
 def kit():
@@ -129,12 +141,18 @@ def gen_history(rng, nupd, allow_bad=True, only_kinds=None):
         if not allow_bad:
             # well-formed stream: an update never refers to something it creates or removes itself
             kids = [k for k in kids if k in before and k not in touched]
-        if kind == 'generate' or (not kids and kind in ('delete', 'divide', 'move')):
+        if kind != 'upd' and (kind == 'generate' or (not kids and kind in ('delete', 'divide', 'move'))):
             k = fresh()
             ck = rng.randint(0, 3)
             colonies[col][k] = ck
             init = {'s': {'n': rng.randint(0, 9)}} if rng.random() < 0.7 else {}
             return ['generate', k, ck, init]
+        if kind == 'upd':
+            # a plain value update of a child, next to the structural keys of the same update: it is applied after
+            # _add/_move/_generate/_divide and before _delete, and skipped when the key is no child at that point
+            pool = list(colonies[col].keys()) + [k for k in before if k not in colonies[col]]
+            k = rng.choice(pool) if pool and rng.random() < 0.92 else 'c98'
+            return ['upd', k, rng.randint(1, 9)]
         if kind == 'add':
             old = [k for k in kids if k in before]      # _add runs first: only keys that existed before the update
             if allow_bad and old and rng.random() < 0.1:
@@ -172,7 +190,7 @@ def gen_history(rng, nupd, allow_bad=True, only_kinds=None):
             return ['divide', k, ds, rng.randint(0, 10 ** 6)]
         raise ValueError(kind)
 
-    kinds = only_kinds or ['generate', 'generate', 'add', 'delete', 'divide', 'move']
+    kinds = only_kinds or ['generate', 'generate', 'add', 'delete', 'divide', 'move'] + (['upd'] if has_upd() else [])
     for i in range(nupd):
         col = rng.choice(['A', 'B'])
         if i >= 2 and only_kinds is None and rng.random() < 0.15:
@@ -203,6 +221,10 @@ def gen_history(rng, nupd, allow_bad=True, only_kinds=None):
                 ks = [k for k in ks if k != 'divide'] or ['generate']
             op = one_op(col, ks, before)
             tag = op[0] if op[0] != 'delete_path' else 'delete'
+            if tag == 'upd':
+                tag = 'upd:' + op[1]
+                if tag in used:
+                    continue          # one entry per key in a dict
             used.add(tag)
             ops.append(op)
         hist.append([col, ops])
@@ -225,6 +247,8 @@ def py_update(col, ops):
             p, s, f, t = compartment(op[2])
             upd.setdefault('_generate', []).append({'key': op[1], 'processes': p, 'steps': s, 'flow': f,
                                                     'topology': t, 'initial_state': op[3]})
+        elif op[0] == 'upd':
+            upd[op[1]] = {'s': {'n': op[2]}}
         elif op[0] == 'move':
             upd.setdefault('_move', []).append({'source': (op[1],), 'target': (op[2],)})
         elif op[0] == 'divide':
@@ -372,6 +396,8 @@ def r_op(op):
         return '(OpDeletePath N %s)' % r_path(op[1])
     if op[0] == 'generate':
         return '(OpGenerate N %s %s %s)' % (cN(key_id(op[1])), cN(op[2]), r_state(op[3]))
+    if op[0] == 'upd':
+        return '(OpUpd N %s %s)' % (cN(key_id(op[1])), r_state({'s': {'n': op[2]}}))
     if op[0] == 'move':
         return '(OpMove N %s %s)' % (cN(key_id(op[1])), r_path([op[2]]))
     if op[0] == 'divide':
